@@ -15,7 +15,7 @@ TEXTS = {
         technique="deterministic simulation: seeded interleavings with enabledness from the real mutexes; deadlock = empty enabled set",
         level_text="Same simulated world and schedule space as C04 (plus sustained-load runs in the thorough tier). A thread is released only when "
                    "TryLock on the real mutex it is about to take succeeds; a state in which requests remain but no thread is enabled is a real "
-                   "lock cycle and is reported with the schedule that produced it; the locker call sequence of every request is checked too.",
+                   "lock cycle and is reported with the schedule that produced it; every run ends with a drain phase (one more request per key and one naming all keys must complete), so a lock that is never released is found behaviourally.",
         level_note=TRUST + " A run that exhausts its (workload-derived) step budget is counted as truncated/inconclusive, never as a violation."),
 }
 TEXTS["C01"] = dict(
